@@ -21,6 +21,18 @@ Theorem C15_other_class_unequal : forall seq c d xs ys, c <> d -> veq seq (VTask
 Proof. exact veq_other_class. Qed.
 Print Assumptions C15_other_class_unequal.
 
+(* == is symmetric and transitive on normalised values (tuples position-wise, frozendicts order-insensitively, tasks by class
+   and fields), whenever scalar == is; frozendict keys are pairwise distinct, as in any Python dict. *)
+Require Import LT.Proofs.EqProofs.
+Theorem C15_eq_sym : forall seq, (forall x y, seq x y = true -> seq y x = true) ->
+  forall a b, dict_keys_ok a = true -> dict_keys_ok b = true -> veq seq a b = true -> veq seq b a = true.
+Proof. exact (fun seq H a => veq_sym seq H a). Qed.
+Print Assumptions C15_eq_sym.
+Theorem C15_eq_trans : forall seq, (forall x y z, seq x y = true -> seq y z = true -> seq x z = true) ->
+  forall a b d, veq seq a b = true -> veq seq b d = true -> veq seq a d = true.
+Proof. exact (fun seq H a => veq_trans seq H a). Qed.
+Print Assumptions C15_eq_trans.
+
 (* A pickled copy is the freshly constructed task again: same fields, same key, what post_init derives, and no
    results map / result / context — for the __setstate__ behaviour read from the current source. *)
 Theorem C15_pickle_copy : forall post_init keyf c fs,
